@@ -190,6 +190,7 @@ class Frame(object):
         self.values = dict(getattr(cls, "values", {}))
         self.use_defaults = tuple(getattr(cls, "use_defaults", ()))
         self.globals_unchanged = bool(getattr(cls, "globals_unchanged", False))
+        self.owned = tuple(getattr(cls, "owned", ()))           # (constructors) attributes that must hold objects of the instance's own
         self.assumptions = list(getattr(cls, "assumptions", []))
         self.property_ids = tuple(getattr(cls, "properties", ()))
 
